@@ -175,6 +175,19 @@ static void c05_one (ProgSpec *ps, long caseidx, VhRng *r, int valid)
       vh_count ("c05.compiles", 1);
     }
   }
+  /* the same contract for a program object that already was compiled: one object compiled for 2..4 targets in a row, without a reset in
+   * between (what the earlier compile left attached must not survive into a result that says "emulate") */
+  {
+    OrcProgram *p = gen_build (ps); int steps = 2 + (int) vh_randn (r, 3), s2;
+    for (s2 = 0; s2 < steps; s2++) {
+      OrcTarget *t = all_targets[vh_randn (r, n_all_targets)]; unsigned flags = orc_target_get_default_flags (t);
+      OrcCompileResult res = orc_program_compile_full (p, t, flags);
+      c05_check_result (p, res, t, flags, ps, caseidx, valid);
+      vh_count ("c05.compiles", 1); vh_count ("c05.recompiles_of_one_object", s2 > 0);
+      if (!ORC_COMPILE_RESULT_IS_SUCCESSFUL (res)) vh_count ("c05.recompile_not_successful_after_earlier_compile", s2 > 0);
+    }
+    orc_program_free (p);
+  }
 }
 
 /* long programs through the different append entry points */
